@@ -1,5 +1,6 @@
 (* ipfix/memcache.go and netflow/v9/memcache.go (identical but for the receiver kind):
-   32 shards, map[uint32]Data per shard keyed by FNV-1-32 of addr || be16 id. *)
+   32 shards selected by FNV-1-32 of key = addr || be16 id; per shard a map[string]Data keyed by the
+   hex text of the full key (hex encoding is injective, so the model keys by the key octets). *)
 From VF Require Import Base.Prelude Model.Reader Model.Flow.
 
 Definition shard_no : Z := 32.
@@ -9,19 +10,19 @@ Fixpoint fnv1_32_acc (l : bytes) (h : Z) : Z :=
   match l with [] => h | b :: t => fnv1_32_acc t (Z.lxor ((h * 16777619) mod 4294967296) b) end.
 Definition fnv1_32 (l : bytes) : Z := fnv1_32_acc l 2166136261.
 
-Definition cache_key (id : Z) (addr : bytes) : Z := fnv1_32 (addr ++ enc 2 id).
+Definition cache_key (id : Z) (addr : bytes) : bytes := addr ++ enc 2 id.
 
 (* a shard: nil pointer | pointer to {Templates: nil map | map} *)
-Definition tmap := list (Z * template).
+Definition tmap := list (bytes * template).
 Definition shard := option (option tmap).
 Definition ccache := list shard.
 
-Fixpoint tmap_get (k : Z) (m : tmap) : option template :=
-  match m with [] => None | (k', t) :: r => if k =? k' then Some t else tmap_get k r end.
-Fixpoint tmap_set (k : Z) (t : template) (m : tmap) : tmap :=
+Fixpoint tmap_get (k : bytes) (m : tmap) : option template :=
+  match m with [] => None | (k', t) :: r => if list_eqb k k' then Some t else tmap_get k r end.
+Fixpoint tmap_set (k : bytes) (t : template) (m : tmap) : tmap :=
   match m with
   | [] => [(k, t)]
-  | (k', t') :: r => if k =? k' then (k, t) :: r else (k', t') :: tmap_set k t r
+  | (k', t') :: r => if list_eqb k k' then (k, t) :: r else (k', t') :: tmap_set k t r
   end.
 
 Fixpoint list_set {A} (n : nat) (x : A) (l : list A) : list A :=
@@ -32,9 +33,9 @@ Fixpoint list_set {A} (n : nat) (x : A) (l : list A) : list A :=
   end.
 
 (* getShard: m[uint(hSum32) % uint(shardNo)] — index out of range panics *)
-Definition get_shard (c : ccache) (id : Z) (addr : bytes) : outcome (nat * shard * Z) :=
+Definition get_shard (c : ccache) (id : Z) (addr : bytes) : outcome (nat * shard * bytes) :=
   let key := cache_key id addr in
-  let i := Z.to_nat (key mod shard_no) in
+  let i := Z.to_nat (fnv1_32 key mod shard_no) in
   match nth_error c i with
   | None => Panic
   | Some s => Ok (i, s, key)
